@@ -48,10 +48,16 @@ def main():
     libdir = os.path.dirname(os.__file__)
     n = 0
     pair_src = "class Stack:\n    def size(self):\n        return len(self.items)\n\nclass Queue:\n    def size(self):\n        return len(self.items)\n\ndef f(a, /, b, *, c):\n    return lambda: a\n"
-    extra = [("pair_a", compile(pair_src, "pkg_a/geometry.py", "exec")), ("pair_b", compile(pair_src, "pkg_b/geometry.py", "exec"))]
+    import __future__
+    # code compiled with explicit compiler flags (codeop, IPython): co_flags carries future bits no import statement sets in Python 3
+    fut = __future__.print_function.compiler_flag | __future__.unicode_literals.compiler_flag | __future__.division.compiler_flag
+    ann = getattr(__future__, "annotations", None)
+    extra = [("pair_a", compile(pair_src, "pkg_a/geometry.py", "exec")), ("pair_b", compile(pair_src, "pkg_b/geometry.py", "exec")),
+             ("flags_a", compile(pair_src, "flags_a.py", "exec", flags=fut, dont_inherit=True)),
+             ("flags_b", compile(pair_src, "flags_b.py", "exec", flags=fut | (ann.compiler_flag if ann else 0), dont_inherit=True))]
     with open(out, "w") as fh:
-        for m in ["<pair_a>", "<pair_b>"] + MODS[:nmod]:
-            if m.startswith("<pair"):
+        for m in ["<pair_a>", "<pair_b>", "<flags_a>", "<flags_b>"] + MODS[:nmod]:
+            if m.startswith("<"):
                 top = dict(extra)[m.strip("<>")]
             else:
                 src = os.path.join(libdir, m + ".py")
